@@ -129,7 +129,7 @@ theorem mem_unionFold (vals : List Str) : ∀ (acc : List Str) (v : Str),
         · exact Or.inl h
         · exact Or.inl (h ▸ hx)
         · exact Or.inr h
-    · simp only [List.mem_append, List.mem_singleton, List.mem_cons]
+    · simp only [List.mem_append, List.mem_cons, List.not_mem_nil, or_false]
       constructor
       · rintro ((h | h) | h)
         · exact Or.inl h
@@ -139,6 +139,7 @@ theorem mem_unionFold (vals : List Str) : ∀ (acc : List Str) (v : Str),
         · exact Or.inl (Or.inl h)
         · exact Or.inl (Or.inr h)
         · exact Or.inr h
+
 
 theorem brel_updateSet (key : Str) (vals : List Str) : ∀ (q : Quals) (k v : Str),
     BRel (updateSet key vals q) k v ↔ BRel q k v ∨ (k = key ∧ v ∈ vals)
@@ -240,6 +241,7 @@ theorem cds_quals_rel (g : SGene) (t : STx) (k v : Str) :
     BRel (cdsExportQuals t (txExportQuals t (geneExportQuals g))) k v ↔ BRel (cdsQuals g t) k v := by
   unfold cdsExportQuals cdsQuals
   simp only [brel_addOpt, brel_append, brel_mergeQuals, tx_quals_rel, brel_nil, false_or]
+  rfl
 
 /-! ### keys stay non-empty -/
 
